@@ -1,6 +1,9 @@
 package syncx
 
-import "time"
+import (
+	"sync/atomic"
+	"time"
+)
 
 // H18b: Pool against a reference model of resource states.
 
@@ -128,19 +131,27 @@ func Verif_C18_pool_blocking() {
 	}
 	verifAssert(creates == limit, "resources are created up to the limit")
 	var got any
-	done := false
+	var done atomicBoolFlag
 	go func() {
 		got = p.Get()
-		done = true
+		done.set()
 	}()
 	verifYield()
-	verifAssert(!done, "Get waits while the limit of resources is in use")
+	verifAssert(!done.get(), "Get waits while the limit of resources is in use")
 	verifAssert(creates == limit, "never more resources than the limit are created")
 	k := verifChoose("which", limit)
 	p.Put(held[k])
 	verifYield()
-	verifAssert(done, "Put wakes the waiting Get")
+	for i := 0; i < 40 && !done.get(); i++ {
+		verifYield() // natively: give the woken goroutine time
+	}
+	verifAssert(done.get(), "Put wakes the waiting Get")
 	verifAssert(got == held[k], "the waiter receives the resource that was put back")
 	verifAssert(creates == limit && destroys == 0, "no resource is created or destroyed on the way")
 	verifReach("handed-over")
 }
+
+type atomicBoolFlag struct{ v uint32 }
+
+func (f *atomicBoolFlag) set()      { atomic.StoreUint32(&f.v, 1) }
+func (f *atomicBoolFlag) get() bool { return atomic.LoadUint32(&f.v) == 1 }
